@@ -195,10 +195,10 @@ fn translate_head(
             ),
             Some(v) => Ok(Rc::new(v.with_loc(l.clone()))),
         },
-        SExp::Integer(l, i) => match prim_map.get(&u8_from_number(i.clone())) {
-            None => Ok(sexp.clone()),
-            Some(v) => Ok(Rc::new(v.with_loc(l.clone()))),
-        },
+        // An integer head is already an opcode.  It must not be looked up in
+        // the table of operator names: 61 (%) is the byte '=' and 62
+        // (keccak256) is the byte '>'.
+        SExp::Integer(_, _) => Ok(sexp.clone()),
         SExp::Cons(_l, _a, nil) => match nil.borrow() {
             SExp::Nil(_l1) => run(
                 allocator,
